@@ -314,6 +314,23 @@ class C05(Spec):
                 h.append("new 50 5 %d" % (seed + 1))
                 h.append("uupd %d 50" % uid)          # incompatible seed (most likely a different seed hash)
             hs.append(h)
+        # a union still in accumulator (sparse) mode whose accumulator is carried, by ONE input, from sparse straight past hybrid and pinned
+        # into the sliding flavor before it is converted to a bit matrix: a sparse input with lg_k far above the union's (every folded row
+        # fills up), directly or after the union has reduced its lg_k on a small input
+        for i in range(4 if quick else 24):
+            base = rng.randrange(1 << 40)
+            lgs = rng.choice([11, 12])
+            n = rng.randrange(3 * (1 << lgs) // 32 - 60, 3 * (1 << lgs) // 32 - 8)        # still sparse: C < 3K/32
+            h = ["new 0 %d 9001" % lgs, "updr 0 %d %d" % (base, n)]
+            if i % 2 == 0:
+                lgu = rng.choice([4, 5, 6])
+                h += ["unew 10 %d 9001" % lgu, "uupd 10 0", "ures 10 100", "new 1 %d 9001" % rng.choice([4, lgu, 8]),
+                      "updr 1 %d %d" % (base + (1 << 30), rng.choice([1, 3, 40])), "uupd 10 1", "ures 10 101", "ser 101"]
+            else:
+                h += ["new 1 %d 9001" % lgs, "updr 1 %d %d" % (base + (1 << 30), n // 2), "unew 10 %d 9001" % lgs, "uupd 10 0", "uupd 10 1",
+                      "new 2 %d 9001" % rng.choice([4, 5]), "updr 2 %d %d" % (base + (1 << 31), rng.choice([1, 2, 5])), "uupd 10 2",
+                      "ures 10 100", "ser 100", "rt 100 99"]
+            hs.append(h)
         return hs
 
     # ------------------------------------------------------------------ oracle: the property statement on one implementation trace
